@@ -126,6 +126,17 @@ def generate(rng, n, tier, pid):
         out.append(f"{ctor} rec 1=L{1 << 30} 2=L{1 << 30}")
         out.append(f"{ctor} rec 1=L{(1 << 30) - 10} 2=L{1 << 30}")
         out.append(f"{ctor} rec 1=L{(1 << 63)} 2=L{(1 << 63)}")
+    # long lists with few distinct tags and distinguishable values: stability of the sort beyond the
+    # sizes at which sorting routines switch algorithm (insertion sort below ~20-32 elements)
+    nlong = max(12, n // 40)
+    for i in range(nlong):
+        k = [21, 33, 48, 64, 100, 257, 70, 129][i % 8] + rng.below(5)
+        ntags = 2 + rng.below(4)
+        es = [f"{rng.below(ntags)}=h{j % 256:02x}{(j // 256) % 256:02x}" for j in range(k)]
+        ctor = ["new", "slice", "sorted"][i % 3]
+        if ctor == "sorted" and i % 2 == 0:
+            es.sort(key=lambda e: int(e.split("=")[0]))
+        out.append(f"{ctor} {['rec', 'iov', 'hcobs'][(i // 3) % 3]} " + " ".join(es))
     while len(out) < n:
         ctor = rng.weighted([(4, "new"), (3, "slice"), (3, "sorted")])
         sink = rng.weighted([(3, "rec"), (4, "iov"), (3, "hcobs")])
